@@ -323,21 +323,18 @@ impl MessageStorage for MdkSqliteStorage {
         group_id: &mdk_storage_traits::GroupId,
         content_substring: &str,
     ) -> Result<Option<u64>, MessageError> {
-        let escaped = content_substring
-            .replace('\\', "\\\\")
-            .replace('%', "\\%")
-            .replace('_', "\\_");
-        let pattern = format!("%{}%", escaped);
+        // instr() is a literal, case-sensitive substring test, as the contract says; LIKE
+        // ignores ASCII case and would also match another spelling of the term.
         self.with_connection(|conn| {
             let mut stmt = conn
                 .prepare(
                     "SELECT epoch FROM messages
-                     WHERE mls_group_id = ? AND tags LIKE ? ESCAPE '\\' AND epoch IS NOT NULL
+                     WHERE mls_group_id = ? AND instr(tags, ?) > 0 AND epoch IS NOT NULL
                      LIMIT 1",
                 )
                 .map_err(into_message_err)?;
 
-            stmt.query_row(params![group_id.as_slice(), &pattern], |row| {
+            stmt.query_row(params![group_id.as_slice(), content_substring], |row| {
                 row.get::<_, u64>(0)
             })
             .optional()
